@@ -20,6 +20,7 @@ package barrier
 import (
 	"bytes"
 	"errors"
+	"sync/atomic"
 	"fmt"
 	"sort"
 	"strings"
@@ -157,10 +158,18 @@ func c10SchedScenarios() []c10SchedScenario {
 		{"rr", "rot", "put"}, {"rr", "rot", "cfg"}, {"rr", "pe", "rot"}, {"rr", "rr", "rot"}, {"rr", "rot", "seal"}, {"rr", "cfg", "pe"}, {"rot", "pe", "put"},
 		// readers racing a rotation: whatever record a read finds, it must be able to open it
 		{"rot", "rd"}, {"rot", "rot", "rd"}, {"rr", "rot", "rd"},
+		// a read-write storage transaction (begin, put, put, commit) next to key operations and a seal
+		{"rot", "txw"}, {"rot", "rot", "txw"}, {"rr", "rot", "txw"}, {"txw", "seal"}, {"rot", "txw", "seal"},
 	}
 	var out []c10SchedScenario
 	for i, l := range lists {
-		out = append(out, c10SchedScenario{ops: l, pre: i % 2, tx: i%2 == 1, nsd: i%3 == 2, name: strings.Join(l, "|")})
+		sc := c10SchedScenario{ops: l, pre: i % 2, tx: i%2 == 1, nsd: i%3 == 2, name: strings.Join(l, "|")}
+		for _, op := range l {
+			if op == "txw" {
+				sc.tx = true
+			}
+		}
+		out = append(out, sc)
 	}
 	return out
 }
@@ -172,6 +181,8 @@ type c10SchedRes struct {
 	cfg     KeyRotationConfig // cfg
 	puts    map[string][]byte // acknowledged writes
 	got     string            // put: result of its read
+	floors  map[string]uint32 // txw: per committed key, the newest term a Rotate had RETURNED before the Put was issued
+	served  string            // txw: an operation of the transaction that succeeded after Seal had returned
 }
 
 func c10IsSealedErr(err error) bool {
@@ -237,6 +248,9 @@ func c10SchedRun(r *kit.Result, seed int64, si int, sc c10SchedScenario, caseID 
 	var reqs []kit.Req
 	var tags []string
 	hasSeal := false
+	var doneTerm atomic.Uint32 // newest term a Rotate has returned so far
+	doneTerm.Store(term0)
+	var sealDone atomic.Bool // Seal has returned
 	for i, op := range sc.ops {
 		i, op := i, op
 		tag := fmt.Sprintf("%s%d", op, i)
@@ -261,6 +275,12 @@ func c10SchedRun(r *kit.Result, seed int64, si int, sc c10SchedScenario, caseID 
 			case "rot":
 				out.term, out.err = b.Rotate(c10Ctx)
 				if out.err == nil {
+					for {
+						cur := doneTerm.Load()
+						if out.term <= cur || doneTerm.CompareAndSwap(cur, out.term) {
+							break
+						}
+					}
 					k := fmt.Sprintf("%sd/rot%d", meta, i)
 					if perr := put(b, k, pv); perr == nil {
 						out.puts[k] = pv
@@ -318,8 +338,54 @@ func c10SchedRun(r *kit.Result, seed int64, si int, sc c10SchedScenario, caseID 
 						}
 					}
 				}
+			case "txw":
+				ts, ok := b.(logical.TransactionalStorage)
+				if !ok {
+					return
+				}
+				txn, err := ts.BeginTx(c10Ctx)
+				if err != nil {
+					out.err = err
+					return
+				}
+				type tp struct {
+					k     string
+					floor uint32
+				}
+				var tps []tp
+				for j := 0; j < 2; j++ {
+					floor, sealedBefore := doneTerm.Load(), sealDone.Load()
+					k := fmt.Sprintf("%sd/txw%d-%d", meta, i, j)
+					perr := txn.Put(c10Ctx, &logical.StorageEntry{Key: k, Value: pv})
+					if perr != nil {
+						if !hasSeal || !c10IsSealedErr(perr) {
+							out.err = fmt.Errorf("put through the transaction: %w", perr)
+						}
+						break
+					}
+					if sealedBefore {
+						out.served = fmt.Sprintf("Put(%s) through a transaction opened before the Seal succeeded after Seal had returned", strings.TrimPrefix(k, meta))
+					}
+					tps = append(tps, tp{k, floor})
+				}
+				if out.err != nil {
+					_ = txn.Rollback(c10Ctx)
+					return
+				}
+				if cerr := txn.Commit(c10Ctx); cerr == nil {
+					out.floors = map[string]uint32{}
+					for _, p := range tps {
+						out.puts[p.k] = pv
+						out.floors[p.k] = p.floor
+					}
+				} else if !errors.Is(cerr, physical.ErrTransactionCommitFailure) {
+					out.err = fmt.Errorf("commit: %w", cerr)
+				}
 			case "seal":
 				out.err = b.Seal()
+				if out.err == nil {
+					sealDone.Store(true)
+				}
 			}
 		}})
 	}
@@ -367,6 +433,12 @@ func c10SchedRun(r *kit.Result, seed int64, si int, sc c10SchedScenario, caseID 
 			r.Count("concurrent_rotations_acknowledged", 1)
 		case "cfg":
 			cfgs = append(cfgs, o.cfg)
+		case "txw":
+			r.Count("concurrent_transactions", 1)
+			if o.served != "" {
+				viol("sealed-op-served", "%s; schedule %s", o.served, sched.String())
+				return sched, r.NViolations() < 20
+			}
 		case "put", "rd":
 			if op == "rd" {
 				r.Count("concurrent_read_sweeps_next_to_a_rotation", 1)
@@ -561,6 +633,23 @@ func c10SchedRun(r *kit.Result, seed int64, si int, sc c10SchedScenario, caseID 
 		}
 	}
 	_ = f.Seal()
+	// every other oracle held (no term was lost): now the transactional writes on their own
+	for i, op := range sc.ops {
+		if op != "txw" {
+			continue
+		}
+		for k, floor := range res[i].floors {
+			ht := headerTerm(k)
+			if ht < floor {
+				viol("transactional-write-after-rotation-under-older-term", "Put(%s) was issued through an open transaction after a Rotate that installed term %d had RETURNED; the committed raw record carries term %d; schedule %s", strings.TrimPrefix(k, meta), floor, ht, sched.String())
+				return sched, r.NViolations() < 20
+			}
+			r.Count("transactional_put_term_checks", 1)
+			if floor > term0 {
+				r.Count("transactional_put_term_checks_issued_after_a_rotation_returned", 1)
+			}
+		}
+	}
 	return sched, r.NViolations() < 20
 }
 
@@ -609,7 +698,7 @@ func c10SchedWindows(r *kit.Result, s kit.Schedule) {
 func TestVerif_C10_BarrierSchedules(t *testing.T) {
 	seed := kit.Seed(10)
 	shard, nshards := kit.Shard()
-	r := kit.NewResult(t, "c10-barrier-schedules", seed, "pairs and triples of {RotateRootKey, Rotate (+put), SetRotationConfig, encryption-count keyring persist, put+get, a read sweep over old entries and the entries the rotations write under their new terms, Seal} on ONE barrier instance, issued concurrently under the storage-operation gate (every physical operation is a scheduling point; each request first parks at a start marker so the gate decides when it enters the barrier): directed schedules that let every other request in while a keyring-persisting request (above all the root-key rotation) sits before its keyring write, before its root-key-record write and before its legacy-record removal, all interleavings with <=2 preemptions up to a run cap, then seeded PCT schedules. After quiescence: every request reported success (or 'sealed' when a Seal ran next to it); active term = initial term + acknowledged rotations in memory; every acknowledged write reads back; a put carries the newest term; then seal, and a fresh instance opens with exactly one root key, a currently valid one (never the superseded, the all-zero or a random one), loads the same keyring and passes the same checks. A schedule is distinct by scenario + (tag,op) order hash; non-trivial when requests overlapped or one was judged blocked on the barrier lock while another was parked")
+	r := kit.NewResult(t, "c10-barrier-schedules", seed, "pairs and triples of {RotateRootKey, Rotate (+put), SetRotationConfig, encryption-count keyring persist, put+get, a read sweep over old entries and the entries the rotations write under their new terms, a read-write storage transaction (begin, put, put, commit; a Put issued after a Rotate RETURNED must carry at least that term in the committed raw record, a Put after Seal returned must be refused), Seal} on ONE barrier instance, issued concurrently under the storage-operation gate (every physical operation is a scheduling point; each request first parks at a start marker so the gate decides when it enters the barrier): directed schedules that let every other request in while a keyring-persisting request (above all the root-key rotation) sits before its keyring write, before its root-key-record write and before its legacy-record removal, all interleavings with <=2 preemptions up to a run cap, then seeded PCT schedules. After quiescence: every request reported success (or 'sealed' when a Seal ran next to it); active term = initial term + acknowledged rotations in memory; every acknowledged write reads back; a put carries the newest term; then seal, and a fresh instance opens with exactly one root key, a currently valid one (never the superseded, the all-zero or a random one), loads the same keyring and passes the same checks. A schedule is distinct by scenario + (tag,op) order hash; non-trivial when requests overlapped or one was judged blocked on the barrier lock while another was parked")
 	defer r.Write(t)
 	for si, sc := range c10SchedScenarios() {
 		if si%nshards != shard {
@@ -685,6 +774,8 @@ func TestVerif_C10_BarrierSchedules(t *testing.T) {
 	r.Require("entries_read_back_after_concurrent_key_operations", 2000/div)
 	r.Require("schedules_with_seal", 45/div)
 	r.Require("concurrent_read_sweeps_next_to_a_rotation", 40/div)
+	r.Require("concurrent_transactions", 60/div)
+	r.Require("transactional_put_term_checks_issued_after_a_rotation_returned", 30/div)
 }
 
 var _ physical.Backend = (*kit.ProbeBackend)(nil)
